@@ -3,6 +3,8 @@ C14 — executable model of go-zero's SQL transaction wrapper (core Lean only).
 
 Modelled code (core/stores/sqlx/tx.go, sqlconn.go; core/stores/sqlc/cachedsql.go):
 
+  begin(db):                          tx, err := db.Begin()            -- NOT BeginTx(ctx): the sql.Tx is bound to
+                                                                       -- context.Background(), never to the caller's ctx
   transactOnConn(ctx, conn, b, fn):   tx, err = b(conn); if err != nil { return }
                                       defer { if p := recover(); p != nil { Rollback … "recover from %#v[, rollback failed: %w]" }
                                               else if err != nil     { Rollback … "transaction failed: %s, rollback failed: %w" }
@@ -11,14 +13,24 @@ Modelled code (core/stores/sqlx/tx.go, sqlconn.go; core/stores/sqlc/cachedsql.go
   transact(ctx, db, b, fn):           conn, err := db.connProv(); if err != nil { onError; return err }; transactOnConn
   commonSqlConn.TransactCtx:          brk.DoWithAcceptableCtx(ctx, transact, db.acceptable)
   commonSqlConn.Transact, CachedConn.Transact/TransactCtx: ctx-less / delegating entry points
-  txConn.Transact/TransactCtx:        errCantNestTx
+  txConn.Transact/TransactCtx (NewSqlConnFromSession, CachedConn.WithSession): errCantNestTx
 
-The world outside go-zero is a parameter: the database driver answers Begin / statement / Commit /
-Rollback with `ok` or a fault (`Faults`, and the `fails` flag of each statement), the body is a program
-(`Body`: statements, reactions to statement errors, final outcome), the breaker's admission decision and the
-context's state are inputs (`Env`).  The result records the driver-call log, how often the body ran, how it ended,
-the returned error (identity chain as seen by `errors.Is` + what is only mentioned in the message) and what
-the breaker was told.
+The world outside go-zero is a parameter:
+  * the database driver answers Begin / statement / Commit / Rollback with `ok` or a fault (`Faults`, and the
+    `fails` flag of each statement); Begin may first be answered `driver.ErrBadConn` any number of times
+    (`Faults.badConn`; database/sql then retries on a fresh connection, at most `maxBeginAttempts` attempts in
+    all, inside the single `db.Begin()` go-zero makes); Commit / Rollback of the driver may panic
+    (`commitPanics`, `rollbackPanics`: nothing in go-zero recovers a panic raised inside the deferred closure,
+    it leaves Transact as a panic);
+  * the body is a program (`Body`: statements, reactions to statement errors, final outcome) and the context it
+    was given may be cancelled / run into its deadline just before its k-th statement (`cancelAt`, `deadline`):
+    from then on database/sql refuses every statement made with that context with ctx.Err() *before* the driver
+    is reached; because the sql.Tx is not bound to the context, nothing is rolled back behind go-zero's back and
+    Commit / Rollback still reach the driver;
+  * the breaker's admission decision and the context's state at the call are inputs (`Env`).
+The result records the driver-call log, how often the body ran, how it ended, the returned error (identity
+chain as seen by `errors.Is` + what is only mentioned in the message), whether the call left by a panic of the
+driver instead of returning (`escaped`), and what the breaker was told.
 -/
 namespace GoZero.C14
 
@@ -37,13 +49,15 @@ inductive Src
   | begin                -- the driver refused Begin
   | body (c : Cls)       -- the body's own error
   | stmt (i : Nat)       -- the driver's fault on the i-th statement
-  | commit               -- the driver's fault on Commit
-  | rollback             -- the driver's fault on Rollback
+  | commit               -- the driver's fault on Commit (error, or the value it panicked with)
+  | rollback             -- the driver's fault on Rollback (error, or the value it panicked with)
   | conn                 -- connProv failed (no *sql.DB)
-  | ctx                  -- the context was done before the breaker was asked
+  | ctx                  -- context.Canceled: from the breaker's context check, or from database/sql refusing a statement
   | breaker              -- breaker.ErrServiceUnavailable
   | nest                 -- errCantNestTx
   | panic                -- the recovered panic value (only ever mentioned)
+  | deadline             -- context.DeadlineExceeded (same two places as `ctx`)
+  | badConn              -- driver.ErrBadConn: database/sql gave up retrying Begin
   deriving DecidableEq, Repr, Inhabited
 
 /-- a returned `error`: `is` = the chain `errors.Is`/`errors.As` can reach (outermost first, `%w`),
@@ -63,8 +77,9 @@ inductive Ev
   | begin (ok : Bool)
   | exec (i : Nat) (ok : Bool)
   | query (i : Nat) (ok : Bool)
-  | commit (ok : Bool)
+  | commit (ok : Bool)           -- `false`: the driver returned an error or panicked
   | rollback (ok : Bool)
+  | beginBad                     -- Begin answered driver.ErrBadConn (database/sql retries on a fresh connection)
   deriving DecidableEq, Repr, Inhabited
 
 inductive SK
@@ -90,6 +105,11 @@ inductive End
 structure Body where
   stmts : List Stmt
   fin   : End
+  /-- the context handed to the body is done from just before statement `k` on (`k` = number of statements:
+  done when the body is about to end) -/
+  cancelAt : Option Nat := none
+  /-- it ended by its deadline (context.DeadlineExceeded) rather than by cancellation (context.Canceled) -/
+  deadline : Bool := false
   deriving DecidableEq, Repr, Inhabited
 
 /-- how the body ended -/
@@ -101,9 +121,12 @@ inductive BodyOut
   deriving DecidableEq, Repr, Inhabited
 
 structure Faults where
-  begin    : Bool      -- true = the driver answers ok
+  begin    : Bool      -- true = the driver answers ok (to the attempt that is not answered ErrBadConn)
   commit   : Bool
   rollback : Bool
+  badConn  : Nat := 0           -- Begin is answered driver.ErrBadConn this many times first
+  commitPanics   : Bool := false  -- the driver's Commit panics
+  rollbackPanics : Bool := false  -- the driver's Rollback panics
   deriving DecidableEq, Repr, Inhabited
 
 structure Result where
@@ -111,58 +134,107 @@ structure Result where
   runs : Nat
   body : BodyOut
   ret  : Option Err
-  mark : Option Bool := none     -- what the breaker was told (`some true` = success); none = not asked
+  mark : Option Bool := none     -- what `acceptable` told the breaker (`some true` = success); none = not asked
+  /-- the call did not return: a panic of the driver's Commit/Rollback left it (`ret` is then the panic value) -/
+  escaped : Bool := false
   deriving DecidableEq, Repr, Inhabited
 
-def Stmt.failing (s : Stmt) : Bool := s.kind == .nest || s.fails
+/-- database/sql: `maxBadConnRetries` (2) attempts on cached-or-new connections plus one on a new connection -/
+def maxBeginAttempts : Nat := 3
 
-def stmtEv (i : Nat) (s : Stmt) : List Ev :=
+/-- `n` Begin attempts answered driver.ErrBadConn in front of the rest of the log -/
+def badPrefix : Nat → List Ev → List Ev
+  | 0, l => l
+  | n + 1, l => .beginBad :: badPrefix n l
+
+/-- database/sql gives up: every attempt was answered ErrBadConn -/
+def Faults.givesUp (f : Faults) : Bool := decide (maxBeginAttempts ≤ f.badConn)
+
+/-- a transaction gets opened on the driver -/
+def Faults.opens (f : Faults) : Bool := !f.givesUp && f.begin
+
+def Faults.commitOk (f : Faults) : Bool := f.commit && !f.commitPanics
+def Faults.rollbackOk (f : Faults) : Bool := f.rollback && !f.rollbackPanics
+
+/-- the context of the body is done when statement `i` is made -/
+def cancelled (c : Option Nat) (i : Nat) : Bool :=
+  match c with
+  | some k => decide (k ≤ i)
+  | none => false
+
+/-- the statement yields an error: nested transaction, driver fault, or refused by database/sql (context done) -/
+def Stmt.failingAt (c : Option Nat) (i : Nat) (s : Stmt) : Bool :=
+  s.kind == .nest || s.fails || cancelled c i
+
+/-- driver calls of statement `i`: none for a nested transaction and none once the context is done -/
+def stmtEvAt (c : Option Nat) (i : Nat) (s : Stmt) : List Ev :=
   match s.kind with
-  | .exec => [.exec i (!s.fails)]
-  | .query => [.query i (!s.fails)]
+  | .exec => if cancelled c i then [] else [.exec i (!s.fails)]
+  | .query => if cancelled c i then [] else [.query i (!s.fails)]
   | .nest => []
 
-def stmtSrc (i : Nat) (s : Stmt) : Src :=
+def ctxSrc (dl : Bool) : Src := if dl then .deadline else .ctx
+
+def stmtSrcAt (c : Option Nat) (dl : Bool) (i : Nat) (s : Stmt) : Src :=
   match s.kind with
   | .nest => .nest
-  | _ => .stmt i
+  | _ => if cancelled c i then ctxSrc dl else .stmt i
 
 /-- the statements of the body from index `i` on: driver calls made, and the statement error the body
 returned early with (if any). -/
-def runStmts : Nat → List Stmt → List Ev × Option Src
+def runStmts (c : Option Nat) (dl : Bool) : Nat → List Stmt → List Ev × Option Src
   | _, [] => ([], none)
   | i, s :: rest =>
-    if s.failing && s.prop then (stmtEv i s, some (stmtSrc i s))
-    else ((stmtEv i s) ++ (runStmts (i + 1) rest).1, (runStmts (i + 1) rest).2)
+    if s.failingAt c i && s.prop then (stmtEvAt c i s, some (stmtSrcAt c dl i s))
+    else ((stmtEvAt c i s) ++ (runStmts c dl (i + 1) rest).1, (runStmts c dl (i + 1) rest).2)
 
 def runBody (b : Body) : List Ev × BodyOut :=
-  match (runStmts 0 b.stmts).2 with
-  | some s => ((runStmts 0 b.stmts).1, .err (Err.of s))
+  match (runStmts b.cancelAt b.deadline 0 b.stmts).2 with
+  | some s => ((runStmts b.cancelAt b.deadline 0 b.stmts).1, .err (Err.of s))
   | none =>
-    ((runStmts 0 b.stmts).1,
+    ((runStmts b.cancelAt b.deadline 0 b.stmts).1,
       match b.fin with
       | .ok => .nil
       | .err c => .err (Err.of (.body c))
       | .panic => .panic)
 
-/-- `transactOnConn` with the real `begin`. -/
-def transactOnConn (f : Faults) (b : Body) : Result :=
+/-- `transactOnConn` from the Begin attempt that database/sql does not retry. -/
+def transactOnce (f : Faults) (b : Body) : Result :=
   if !f.begin then
     { log := [.begin false], runs := 0, body := .notRun, ret := some (Err.of .begin) }
   else
     match (runBody b).2 with
     | .panic =>
       -- recover() ≠ nil: Rollback; the error mentions the panic value and wraps a rollback failure
+      if f.rollbackPanics then
+        { log := .begin true :: ((runBody b).1 ++ [.rollback false]), runs := 1, body := .panic,
+          ret := some (Err.of .rollback), escaped := true }
+      else
       { log := .begin true :: ((runBody b).1 ++ [.rollback f.rollback]), runs := 1, body := .panic,
         ret := some { is := if f.rollback then [] else [.rollback], says := [.panic] } }
     | .err e =>
       -- err ≠ nil: Rollback; a rollback failure is wrapped, the body's error then only mentioned (%s)
+      if f.rollbackPanics then
+        { log := .begin true :: ((runBody b).1 ++ [.rollback false]), runs := 1, body := .err e,
+          ret := some (Err.of .rollback), escaped := true }
+      else
       { log := .begin true :: ((runBody b).1 ++ [.rollback f.rollback]), runs := 1, body := .err e,
         ret := some (if f.rollback then e else { is := [.rollback], says := e.is ++ e.says }) }
     | _ =>
       -- err = nil: the result is Commit's
+      if f.commitPanics then
+        { log := .begin true :: ((runBody b).1 ++ [.commit false]), runs := 1, body := .nil,
+          ret := some (Err.of .commit), escaped := true }
+      else
       { log := .begin true :: ((runBody b).1 ++ [.commit f.commit]), runs := 1, body := .nil,
         ret := if f.commit then none else some (Err.of .commit) }
+
+/-- `transactOnConn` with the real `begin` (one `db.Begin()`, inside which database/sql retries ErrBadConn). -/
+def transactOnConn (f : Faults) (b : Body) : Result :=
+  if f.givesUp then
+    { log := badPrefix maxBeginAttempts [], runs := 0, body := .notRun, ret := some (Err.of .badConn) }
+  else
+    { transactOnce f b with log := badPrefix f.badConn (transactOnce f b).log }
 
 /-- the environment of `commonSqlConn.TransactCtx` -/
 structure Env where
@@ -170,6 +242,7 @@ structure Env where
   brkAllow   : Bool     -- the breaker admits the request
   connOk     : Bool     -- connProv yields a *sql.DB
   userAccept : Bool     -- a WithAcceptable function is installed (it accepts exactly `Cls.userOk`)
+  ctxDead    : Bool := false   -- … and it is done by its deadline (ctx.Err() = DeadlineExceeded)
   deriving DecidableEq, Repr, Inhabited
 
 def clsAcceptable (userAccept : Bool) : Cls → Bool
@@ -182,6 +255,7 @@ def clsAcceptable (userAccept : Bool) : Cls → Bool
 
 def srcAcceptable (userAccept : Bool) : Src → Bool
   | .body c => clsAcceptable userAccept c
+  | .ctx => true                -- errors.Is(err, context.Canceled)
   | _ => false
 
 /-- `commonSqlConn.acceptable`: nil, or something acceptable reachable in the chain -/
@@ -189,33 +263,43 @@ def acceptable (userAccept : Bool) : Option Err → Bool
   | none => true
   | some e => e.is.any (srcAcceptable userAccept)
 
+/-- what the breaker hears of a finished `transact`: the verdict of `acceptable` — unless the call left by a
+panic (then `acceptable` is not consulted; the real breaker books a failure in its deferred function). -/
+def markOf (userAccept : Bool) (r : Result) : Option Bool :=
+  if r.escaped then none else some (acceptable userAccept r.ret)
+
 /-- `commonSqlConn.TransactCtx` (and `Transact`, `CachedConn.Transact[Ctx]`, which delegate to it). -/
 def transactCtx (env : Env) (f : Faults) (b : Body) : Result :=
-  if env.ctxDone then { log := [], runs := 0, body := .notRun, ret := some (Err.of .ctx), mark := none }
+  if env.ctxDone then
+    { log := [], runs := 0, body := .notRun, ret := some (Err.of (ctxSrc env.ctxDead)), mark := none }
   else if !env.brkAllow then { log := [], runs := 0, body := .notRun, ret := some (Err.of .breaker), mark := none }
   else if !env.connOk then { log := [], runs := 0, body := .notRun, ret := some (Err.of .conn), mark := some false }
-  else { transactOnConn f b with mark := some (acceptable env.userAccept (transactOnConn f b).ret) }
+  else { transactOnConn f b with mark := markOf env.userAccept (transactOnConn f b) }
 
 /-- the request got past context check, breaker and connection provider -/
 def Env.admitted (env : Env) : Bool := !env.ctxDone && env.brkAllow && env.connOk
 
 /-- a transaction was opened on the driver -/
-def opened (env : Env) (f : Faults) : Bool := env.admitted && f.begin
+def opened (env : Env) (f : Faults) : Bool := env.admitted && f.opens
 
 /-- the one call that ends an opened transaction: decided by how the body ended -/
 def endEvent (f : Faults) (b : Body) : Ev :=
   match (runBody b).2 with
-  | .nil => .commit f.commit
-  | _ => .rollback f.rollback
+  | .nil => .commit f.commitOk
+  | _ => .rollback f.rollbackOk
+
+/-- the Begin attempts the driver sees when `db.Begin()` does not open a transaction -/
+def refusedBegins (f : Faults) : List Ev :=
+  if f.givesUp then badPrefix maxBeginAttempts [] else badPrefix f.badConn [.begin false]
 
 /-- the statements that are executed: up to and including the first one whose error the body returns -/
-def executed : List Stmt → List Stmt
-  | [] => []
-  | s :: rest => if s.failing && s.prop then [s] else s :: executed rest
+def executed (c : Option Nat) : Nat → List Stmt → List Stmt
+  | _, [] => []
+  | i, s :: rest => if s.failingAt c i && s.prop then [s] else s :: executed c (i + 1) rest
 
 /-- driver calls of a list of statements that all run, numbered from `i` -/
-def eventsOf : Nat → List Stmt → List Ev
+def eventsOf (c : Option Nat) : Nat → List Stmt → List Ev
   | _, [] => []
-  | i, s :: rest => stmtEv i s ++ eventsOf (i + 1) rest
+  | i, s :: rest => stmtEvAt c i s ++ eventsOf c (i + 1) rest
 
 end GoZero.C14
